@@ -27,6 +27,8 @@ func c05(c *Ctx) {
 	c05rescue(c)
 	c05maxconns(c)
 	c05options(c)
+	// R8 (round 8): the cap is in the chain of every route
+	chainContains(c, "C05.R8", "MaxConns", "MaxConnsHandler", "the max-connections limiter")
 }
 
 func c05limit(c *Ctx) {
